@@ -107,6 +107,59 @@ def check_ts_invariant():
     return None
 
 
+def check_rq_without_transfer_syntax():
+    """a REAL acceptor on 127.0.0.1 receives an A-ASSOCIATE-RQ whose only presentation-context item carries an abstract syntax
+    but no transfer-syntax sub-item: it must answer (reject / abort / accept with a result) - not die in the negotiation"""
+    import socket
+    import threading
+    import time
+    from pynetdicom import AE
+    from pynetdicom.pdu import A_ASSOCIATE_RQ
+    from pynetdicom.pdu_primitives import A_ASSOCIATE, MaximumLengthNotification, ImplementationClassUIDNotification
+    from pynetdicom.sop_class import Verification
+    p = A_ASSOCIATE()
+    p.application_context_name = "1.2.840.10008.3.1.1.1"
+    p.calling_ae_title, p.called_ae_title = "A", "B"
+    c = cx(1, ABS[0], [TS[0]])
+    p.presentation_context_definition_list = [c]
+    m = MaximumLengthNotification()
+    m.maximum_length_received = 16382
+    i = ImplementationClassUIDNotification()
+    i.implementation_class_uid = "1.2.3"
+    p.user_information = [m, i]
+    pdu = A_ASSOCIATE_RQ()
+    pdu.from_primitive(p)
+    item = pdu.variable_items[1]
+    item.abstract_transfer_syntax_sub_items = [item.abstract_transfer_syntax_sub_items[0]]     # drop the transfer syntax
+    data = pdu.encode()
+    errs = []
+    old_hook = threading.excepthook
+    threading.excepthook = lambda a: errs.append(repr(a.exc_value))
+    ae = AE()
+    ae.add_supported_context(Verification)
+    ae.acse_timeout = ae.network_timeout = 2
+    srv = ae.start_server(("127.0.0.1", 0), block=False)
+    try:
+        s = socket.create_connection(("127.0.0.1", srv.socket.getsockname()[1]))
+        s.sendall(data)
+        s.settimeout(3)
+        try:
+            r = s.recv(4096)
+            reply = {1: "A-ASSOCIATE-RQ", 2: "A-ASSOCIATE-AC", 3: "A-ASSOCIATE-RJ", 7: "A-ABORT"}.get(r[0], hex(r[0])) if r else "connection closed"
+        except OSError as e:
+            reply = f"nothing within 3 s ({e})"
+        time.sleep(0.3)
+        s.close()
+    finally:
+        srv.shutdown()
+        threading.excepthook = old_hook
+    if errs or reply.startswith("nothing"):
+        return dict(input={"received": "A-ASSOCIATE-RQ with one presentation context item: abstract syntax, NO transfer syntax sub-item", "bytes": data.hex()},
+                    observed={"reply": reply, "uncaught exceptions in pynetdicom threads": errs},
+                    expected="the request is answered (A-ASSOCIATE-RJ / A-ABORT / a rejected context); no thread dies")
+    return None
+
+
 def main():
     rec = load() if len(sys.argv) > 1 and sys.argv[1] != "--all" else {"id": "all"}
     if "add_transfer_syntax" in rec["id"]:
@@ -114,6 +167,11 @@ def main():
         if b:
             done(True, **b)
         done(False, note="add_transfer_syntax never puts the empty UID into the list on the replay cases")
+    if "to_primitive" in rec["id"]:
+        b = check_rq_without_transfer_syntax()
+        if b:
+            done(True, **b)
+        done(False, note="an A-ASSOCIATE-RQ whose presentation context has no transfer syntax is answered without a crash")
     if "negotiate_unrestricted" in rec["id"]:
         b = check_unrestricted()
         if b:
@@ -121,7 +179,7 @@ def main():
         done(False, note="unrestricted negotiation agrees with the specification on the replay cases")
     bad = None
     n = 0
-    ts_lists = [[TS[0]], [TS[1], TS[0]], [TS[2]], [TS[0], TS[1], TS[2]]]
+    ts_lists = [list(p) for k in (1, 2, 3) for p in itertools.permutations(TS, k)]      # all 15 ordered selections
     for p_ts, a_ts in itertools.product(ts_lists, ts_lists):
         for ac_set in R.AC_SETTINGS:
             for prop in [None] + R.RQ_PROPOSALS[1:]:
